@@ -14,8 +14,10 @@ from bounded import refsem  # noqa: E402
 from spec import prims  # noqa: E402
 import jsonpath_rfc9535 as jp  # noqa: E402
 
+from spec import lexer as _lexer_spec  # noqa: E402
+
 NS = dict(vars(refsem.prims))
-for m in (refsem.rfc_select, refsem.rfc_filter, refsem.pysem):
+for m in (refsem.rfc_select, refsem.rfc_filter, refsem.pysem, _lexer_spec):
     NS.update({k: v for k, v in vars(m).items() if not k.startswith("__")})
 
 
@@ -116,6 +118,28 @@ def main():
     except Exception as e:  # noqa: BLE001
         print(json.dumps({"confirmed": False, "reason": f"precondition not evaluable: {type(e).__name__}: {e}"}))
         return
+    # objects updated in place: `name0` is a copy taken before the call; conditions over entry values are decided now
+    import copy
+
+    def snapshot(o):
+        """entry state of an object updated in place: same field values, containers copied one level (elements shared,
+        so that equality of untouched fields does not depend on how their elements compare)"""
+        n = object.__new__(type(o))
+        names = [f for k in type(o).__mro__ for f in getattr(k, "__slots__", ())] or list(getattr(o, "__dict__", {}))
+        for f in names:
+            if hasattr(o, f):
+                v = getattr(o, f)
+                object.__setattr__(n, f, copy.copy(v) if isinstance(v, (list, dict, set)) else v)
+        return n
+
+    for name in job.get("mutates", {}):
+        if name in params:
+            env[name + "0"] = snapshot(params[name])
+    try:
+        iff_now = [(cls, cond, holds(cond)) for cls, cond in job["raises_iff"]]
+    except Exception as e:  # noqa: BLE001
+        print(json.dumps({"confirmed": False, "reason": f"condition not evaluable: {type(e).__name__}: {e}"}))
+        return
     m = importlib.import_module("jsonpath_rfc9535." + mod)
     target = m
     parts = qual.split(".")
@@ -174,17 +198,21 @@ def main():
                 cl2 = cl
                 if not _clause_holds(cl2, env):
                     failed.append(cl)
-            for cls, cond in job["raises_iff"]:
-                if holds(cond):
+            for cls, cond, was in iff_now:
+                if was:
                     failed.append(f"should have raised {cls}: {cond}")
         else:
             allowed = job["raises"] + [c for c, _ in job["raises_iff"]]
             names = [k.__name__ for k in type(raised).__mro__]
             if not any(a in names for a in allowed):
                 failed.append(f"raised {type(raised).__name__}: {raised} (allowed: {allowed})")
-            for cls, cond in job["raises_iff"]:
-                if cls in names and not holds(cond):
+            for cls, cond, was in iff_now:
+                if cls in names and not was:
                     failed.append(f"raised {cls} although not ({cond})")
+            env["exc"] = raised
+            for cl in job.get("raises_ensures", []):
+                if not _clause_holds(cl, env):
+                    failed.append(cl)
     except Exception as e:  # noqa: BLE001
         print(json.dumps({"confirmed": False, "reason": f"clause not evaluable natively: {type(e).__name__}: {e}"}))
         return
